@@ -295,7 +295,16 @@ where
     };
     let sd = cov[0][0].max(cov[1][1]).sqrt();
     let n = *g.choose(&[1usize, 2, 3, 17, 64]);
-    let pts: Vec<Vec<f64>> = (0..n).map(|_| vec![mean[0] + 3.0 * sd * g.normal(), mean[1] + 3.0 * sd * g.normal()]).collect();
+    let mut pts: Vec<Vec<f64>> = (0..n).map(|_| vec![mean[0] + 3.0 * sd * g.normal(), mean[1] + 3.0 * sd * g.normal()]).collect();
+    // a row sitting exactly on the mean (where a chain started at the mode is), or on one of its coordinates
+    if g.chance(0.3) {
+        let i = g.below(n);
+        pts[i] = vec![mean[0], mean[1]];
+        rep.count("batches_with_a_row_exactly_at_the_mean");
+    } else if g.chance(0.2) {
+        let i = g.below(n);
+        pts[i][g.below(2)] = mean[g.below(2).min(1)];
+    }
     rep.distinct(("diffable", tname.to_string(), bname.to_string(), n, case));
     let sig = format!("DiffableGaussian2D<{tname}> on {bname}");
     // a-priori rounding bound of d^T P d and P d with P = adj(cov)/det quantised to f32
@@ -460,7 +469,13 @@ where
     }
     // draws: reproducible under set_seed, mean 0 / variance std^2 / KS
     if case % 8 == 0 {
-        let seed = g.next_u64();
+        // (structurally special seeds included: 0, 1, u64::MAX, 2^63)
+        let seed = match (case / 8) % 6 {
+            0 => 0,
+            1 => u64::MAX,
+            2 => 1u64 << 63,
+            _ => g.next_u64(),
+        };
         let n = if ctx.thorough { 40_000 } else { 12_000 };
         let mut p1 = IsotropicGaussian::<F>::new(F::of(std)).set_seed(seed);
         // the second one has been used before it is seeded: set_seed must make it equivalent all the same
